@@ -189,8 +189,11 @@ class Constant(Program):
     def all_constants_instantiation(
         self, constants: Dict[Type, TList[Any]]
     ) -> Generator["Program", None, None]:
-        for val in constants[self.type]:
-            yield Constant(self.type, val)
+        # equal values give the same program: yield it once
+        for instance in dict.fromkeys(
+            Constant(self.type, val) for val in constants[self.type]
+        ):
+            yield instance
 
     def __str__(self) -> str:
         if self.has_value():
